@@ -22,8 +22,8 @@ PROP = "C24"
 META = {
     "level": "exploration",
     "technique": "reference token decoder vs. handler-ran flag over harvested, re-masked, cross-session, single-byte-mutated and arbitrary cookie/token pairs through the real server",
-    "level_text": "Cookie/token pairs (tokens issued by the running application for both cookie versions, reference re-maskings, other sessions' tokens, every kind of single-byte mutation of token and cookie, arbitrary strings, empty secrets, and tokens / cookies whose version or timestamp field has 20 to 20000 decimal digits, i.e. around and beyond the interpreter's 4300-digit int conversion limit) are submitted as form field, query argument, X-XSRFToken or X-CSRFToken with POST/PUT/DELETE/PATCH and with methods the handler adds to SUPPORTED_METHODS (WebDAV-style, extension and GET/HEAD/OPTIONS look-alike names) through HTTPServer; the handler-ran flag and the status are compared with an independent decoder of the hex and 2|mask|masked|ts formats.",
-    "level_note": "Trusts the 25-line reference decoder. Not judged (executed, safety only): tokens or cookies that are neither well-formed hex nor '2|'-prefixed (legacy raw-token fallback), mask lengths other than 4 bytes, non-decimal timestamps, characters outside VCHAR, several token sources in one request, non-UTF-8 form fields (400 or 403 accepted).",
+    "level_text": "Cookie/token pairs (tokens issued by the running application for both cookie versions, reference re-maskings, other sessions' tokens, every kind of single-byte mutation of token and cookie, arbitrary strings, empty secrets, and tokens / cookies whose version or timestamp field has 20 to 20000 decimal digits, i.e. around and beyond the interpreter's 4300-digit int conversion limit) are submitted as form field, query argument, X-XSRFToken or X-CSRFToken with POST/PUT/DELETE/PATCH and with methods the handler adds to SUPPORTED_METHODS (WebDAV-style, extension and GET/HEAD/OPTIONS look-alike names) through HTTPServer, and requests that carry several channels at once (an empty or white-space-only _xsrf form/query field and/or an empty X-XSRFToken header in front of a header token: the first non-blank channel decides; all blank: 403); the handler-ran flag and the status are compared with an independent decoder of the hex and 2|mask|masked|ts formats.",
+    "level_note": "Trusts the 25-line reference decoder. Not judged (executed, safety only): tokens or cookies that are neither well-formed hex nor '2|'-prefixed (legacy raw-token fallback), mask lengths other than 4 bytes, non-decimal timestamps, characters outside VCHAR, a non-blank token that is not the cookie's in a channel in front of the cookie's token (argument, X-XSRFToken, X-CSRFToken order) or a query and a form field that are not both blank, non-UTF-8 form fields (400 or 403 accepted).",
     "design_ref": "DESIGN.md §4 C24",
     "engine": "wire",
 }
@@ -33,12 +33,13 @@ RULE = ("a case is one (cookie, token, channel, method, cookie-version-of-app) s
         "distinct by the submitted tuple")
 FLOORS = {"quick": 6000, "thorough": 150000}
 ASSUMPTIONS = ["reference decoder of the two XSRF token formats is correct",
-               "one token source per request", "cookie values contain no ';', quotes or whitespace"]
+               "with several token channels in one request the first non-blank one (argument, X-XSRFToken, X-CSRFToken) is judged; a field of white space / C0 controls only is blank", "cookie values contain no ';', quotes or whitespace"]
 REQUIRED_COUNTERS = ["oracle_evals", "expect_accept", "expect_reject", "issued_token_evals", "ran_flag_set",
                      "safety_evals", "unspecified_pairs", "extension_method/expect_accept",
                      "extension_method/expect_reject", "extension_method/issued_token_evals", "over_4300_digit_field_evals",
                      "over_4300_digit_field/form", "over_4300_digit_field/query", "over_4300_digit_field/x-xsrftoken",
-                     "over_4300_digit_field/x-csrftoken", "over_4300_digit_field/cookie"]
+                     "over_4300_digit_field/x-csrftoken", "over_4300_digit_field/cookie",
+                     "multi_channel/expect_accept", "multi_channel/expect_reject", "multi_channel/blank_then_valid"]
 
 METHODS = ["POST", "PUT", "DELETE", "PATCH"]
 # "a non-GET/HEAD/OPTIONS request": whatever else a handler declares in SUPPORTED_METHODS is covered as well --
@@ -57,8 +58,8 @@ HEX = re.compile(r"(?:[0-9a-fA-F]{2})*\Z")
 
 def shards(tier, seed):
     if tier == "quick":
-        return [{"n_sessions": 14, "n_pairs": 500, "edits": 40} for _ in range(16)]
-    return [{"n_sessions": 90, "n_pairs": 6000, "edits": 120} for _ in range(32)]
+        return [{"n_sessions": 14, "n_pairs": 500, "edits": 40, "n_multi": 70} for _ in range(16)]
+    return [{"n_sessions": 90, "n_pairs": 6000, "edits": 120, "n_multi": 900} for _ in range(32)]
 
 
 # ------------------------------------------------------------------ reference
@@ -144,6 +145,8 @@ def gen_cases(spec):
         yield {"k": "session", "appver": rng.choice([1, 2]), "eseed": rng.getrandbits(32), "edits": spec["edits"]}
     for _ in range(spec["n_pairs"]):
         yield _rand_pair(rng)
+    for _ in range(spec.get("n_multi", 0)):
+        yield _rand_multi(rng)
 
 
 def _rand_secret(rng):
@@ -264,6 +267,103 @@ def _rand_pair(rng):
             "chan": rng.choice(CHANNELS), "method": pick_method(rng)}
 
 
+# ---- several token channels in one request -------------------------------------------------------------------
+# A request may carry an `_xsrf` form/query field and either header at the same time.  A field or header that is
+# empty / consists of white space only is not a token; the statement then speaks about the token in the next channel
+# (argument, then X-XSRFToken, then X-CSRFToken).  Parts are [channel, raw] in that order: for "form"/"query" raw is
+# the urlencoded field text, for headers the header value as sent.
+BLANK_ARGS = ["", "", "+", "%20", "++", "%20%20%20", "%09", "+%09+", "%0A", "%0D%0A", "%0B", "%0C", "%C2%A0", "%E3%80%80",
+              "%E2%80%83", "%C2%85", "%00", "%01+", "%1F", "+%00%08%0E+"]
+BLANK_HEADERS = ["", "", " ", "\t", "  \t "]
+_BLANK_CHARS = set(" \t\n\r\x0b\x0c\xa0\u3000\u2003\x85" + "".join(map(chr, list(range(0, 9)) + list(range(14, 32)))))
+ARG_CHANNELS = ("form", "query")
+PRIORITY = {"form": 0, "query": 0, "x-xsrftoken": 1, "x-csrftoken": 2}
+
+
+def part_token(chan, raw):
+    """The token a part carries ('' = the part is blank)."""
+    if chan in ARG_CHANNELS:
+        d = urllib.parse.unquote_plus(raw, encoding="utf-8", errors="strict")
+        return "" if all(c in _BLANK_CHARS for c in d) else d
+    return raw.strip(" \t")
+
+
+def expect_multi(cookie, parts):
+    """(verdict, shape) for a request carrying `parts` (priority order)."""
+    toks = [(chan, part_token(chan, raw)) for chan, raw in parts]
+    vs = [(chan, expect(cookie, t)) for chan, t in toks if t != ""]
+    lead_blank = [chan for chan, t in toks if t == ""][:1] if toks and toks[0][1] == "" else []
+    if not vs:
+        return "reject", "all-channels-blank"
+    first_chan, first = vs[0]
+    if lead_blank:
+        shape = ("blank-argument-then-" if lead_blank[0] in ARG_CHANNELS else "blank-header-then-") + \
+                ("argument" if first_chan in ARG_CHANNELS else "header")
+    else:
+        shape = "first-token-then-more"
+    if first == "accept":
+        return "accept", shape
+    if all(v == "reject" for _, v in vs):
+        return "reject", shape
+    # a non-blank token that is not the cookie's, in front of one that is (shadowing), or anything undecided
+    return "unspec", shape
+
+
+def _rand_multi(rng):
+    secret = rng.randbytes(16) if rng.random() < 0.9 else _rand_secret(rng)
+    cookie = _tok(rng, secret)
+
+    def valid():
+        return _tok(rng, secret)
+
+    def foreign():
+        return _tok(rng, rng.randbytes(len(secret) or 16))
+
+    def junk():
+        return rng.choice(["zz", "abc", "2|", "2|00000000|00|x", "3|00000000|00|0", "0g", "1|abcd", "2|zz000000|00|0"])
+
+    def arg(tok_or_none):
+        chan = rng.choice(ARG_CHANNELS)
+        if tok_or_none is None:
+            return [chan, rng.choice(BLANK_ARGS)]
+        return [chan, urllib.parse.quote(tok_or_none, safe="")]
+
+    def hdr(name, tok_or_none):
+        name = {"x": rng.choice(["X-XSRFToken", "x-xsrftoken", "X-Xsrftoken"]), "c": rng.choice(["X-CSRFToken", "X-Csrftoken"])}[name]
+        return [name, rng.choice(BLANK_HEADERS) if tok_or_none is None else tok_or_none]
+
+    k = rng.random()
+    if k < 0.22:
+        parts = [arg(None), hdr(rng.choice("xc"), valid())]
+    elif k < 0.32:
+        parts = [arg(None), hdr("x", None), hdr("c", valid())]
+    elif k < 0.44:
+        parts = [hdr("x", None), hdr("c", valid())]
+    elif k < 0.5:
+        parts = [arg(None), arg(None), hdr(rng.choice("xc"), valid())]
+        parts[0][0], parts[1][0] = "query", "form"
+    elif k < 0.6:
+        parts = [arg(None), hdr(rng.choice("xc"), rng.choice([foreign, junk])())]
+    elif k < 0.66:
+        parts = [hdr("x", None), hdr("c", rng.choice([foreign, junk])())]
+    elif k < 0.72:
+        parts = rng.choice([[arg(None)], [arg(None), hdr("x", None)], [hdr("x", None), hdr("c", None)],
+                            [arg(None), hdr("x", None), hdr("c", None)], [hdr("x", None)], [hdr("c", None)]])
+    elif k < 0.86:
+        # the first channel holds the cookie's token; later channels hold anything
+        later = [rng.choice([valid, foreign, junk, lambda: None])() for _ in range(2)]
+        parts = rng.choice([[arg(valid()), hdr("x", later[0])], [arg(valid()), hdr("c", later[0])],
+                            [arg(valid()), hdr("x", later[0]), hdr("c", later[1])], [hdr("x", valid()), hdr("c", later[0])]])
+    elif k < 0.93:
+        # a non-blank foreign / malformed token in front of the cookie's token: not judged
+        parts = rng.choice([[arg(rng.choice([foreign, junk])()), hdr(rng.choice("xc"), valid())],
+                            [hdr("x", rng.choice([foreign, junk])()), hdr("c", valid())]])
+    else:
+        # white space around a token, blank first
+        parts = [arg(None), hdr(rng.choice("xc"), rng.choice([" ", "\t", ""]) + valid() + rng.choice([" ", "", " \t"]))]
+    return {"k": "multi", "appver": rng.choice([1, 2]), "cookie": cookie, "parts": parts, "method": pick_method(rng)}
+
+
 def _edit(rng, s):
     if not s:
         return rng.choice(EDIT_ALPHA)
@@ -295,6 +395,21 @@ def directed_cases():
         yield {"k": "pair", "appver": 2 - i % 2, "cookie": "2" + "0" * 4300 + "|00", "token": good, "chan": chan, "method": "PUT"}
         yield {"k": "pair", "appver": 1 + i % 2, "cookie": "ab" * 16, "token": good + "9" * 4300, "chan": chan, "method": "POST"}
     yield {"k": "pair", "appver": 2, "cookie": "1" * 4301 + "|", "token": "1" * 4301 + "|", "chan": "form", "method": "DELETE"}
+    # several channels at once: blank field / empty header in front of the cookie's token (accepted), in front of a
+    # foreign token or nothing (403)
+    for i, blank in enumerate(BLANK_ARGS[1:]):
+        yield {"k": "multi", "appver": 1 + i % 2, "cookie": "ab" * 16, "method": METHODS[i % 4],
+               "parts": [[ARG_CHANNELS[i % 2], blank], [["X-XSRFToken", "X-CSRFToken"][(i // 2) % 2], good if i % 3 else "ab" * 16]]}
+    for i, blank in enumerate(BLANK_HEADERS[1:]):
+        yield {"k": "multi", "appver": 1 + i % 2, "cookie": "ab" * 16, "method": "POST",
+               "parts": [["X-XSRFToken", blank], ["X-CSRFToken", good]]}
+        yield {"k": "multi", "appver": 2 - i % 2, "cookie": "ab" * 16, "method": "PUT",
+               "parts": [["form", ""], ["X-XSRFToken", blank], ["X-CSRFToken", good]]}
+        yield {"k": "multi", "appver": 2 - i % 2, "cookie": "ab" * 16, "method": "DELETE",
+               "parts": [["query", "+"], ["X-XSRFToken", blank], ["X-CSRFToken", "cd" * 16]]}
+    yield {"k": "multi", "appver": 2, "cookie": "ab" * 16, "method": "POST", "parts": [["query", ""], ["form", "+"], ["X-CSRFToken", good]]}
+    yield {"k": "multi", "appver": 1, "cookie": "ab" * 16, "method": "POST", "parts": [["form", "%20"], ["X-XSRFToken", ""]]}
+    yield {"k": "multi", "appver": 1, "cookie": "ab" * 16, "method": "PATCH", "parts": [["form", good.replace("|", "%7C")], ["X-XSRFToken", "cd" * 16]]}
     yield {"k": "session", "appver": 1, "eseed": 1, "edits": 20}
     yield {"k": "session", "appver": 2, "eseed": 2, "edits": 20}
 
@@ -416,6 +531,104 @@ async def submit(ctx, sess, appver, cookie, token, chan, method, origin="generat
     return r.status, ran
 
 
+async def submit_multi(ctx, sess, appver, cookie, parts, method, origin="generated"):
+    """One state-changing request carrying several token channels at once; judged by expect_multi()."""
+    s = sess.by_ver[appver]
+    if not cookie_sendable(cookie):
+        ctx.count("unspecified_cookie_not_plain")
+        return None
+    parts = sorted(([c, r] for c, r in parts), key=lambda p: PRIORITY[p[0].lower()])
+    _rid[0] += 1
+    rid = "r%d" % _rid[0]
+    headers = [("X-Rid", rid)]
+    if cookie is not None:
+        headers.append(("Cookie", "_xsrf=" + cookie))
+    target, body = "/x", b""
+    seen_chan = set()
+    for chan, raw in parts:
+        if chan.lower() in seen_chan or (chan not in ARG_CHANNELS and raw.strip(" \t") and not header_sendable(raw.strip(" \t"))):
+            ctx.count("skipped_multi_not_sendable")
+            return None
+        seen_chan.add(chan.lower())
+        if chan == "form":
+            body = b"_xsrf=" + raw.encode("ascii")
+            headers.append(("Content-Type", "application/x-www-form-urlencoded"))
+        elif chan == "query":
+            target = "/x?_xsrf=" + raw
+        else:
+            headers.append((chan, raw))
+    try:
+        r = await s.request(webrig.build_request(method, target, headers, body), method)
+    except webrig.WireError as e:
+        ctx.violation(f"wire/{e.kind}", "response is not a well-framed HTTP message", {"why": e.why, "raw": e.raw})
+        return None
+    ran = rid in RAN
+    RAN.discard(rid)
+    if ran:
+        ctx.count("ran_flag_set")
+    exp, shape = expect_multi(cookie, parts)
+    args = [p for p in parts if p[0] in ARG_CHANNELS]
+    if len(args) == 2 and any(part_token(c, x) != "" for c, x in args):
+        exp = "unspec"          # query and form field both present and not both blank: which one counts is not pinned
+    wit = {"cookie": _short(cookie), "parts": [[c, _short(x)] for c, x in parts], "method": method, "xsrf_cookie_version": appver,
+           "status": r.status if r else None, "handler_ran": ran, "origin": origin, "shape": shape,
+           "ref_cookie": _show(ref_decode(cookie)),
+           "ref_tokens": [[c, _show(ref_decode(part_token(c, x)))] for c, x in parts]}
+    webrig.safety(ctx, s, r, "XSRF-checked request with several token channels")
+    ctx.count("oracle_evals")
+    if r is None:
+        ctx.violation("no-response", "connection closed without a response", wit)
+        return None
+    if r.status >= 500:
+        ctx.violation(f"status-{r.status}/" + origin, "server error for a cookie/token combination (must be 403)", wit)
+        return r.status, ran
+    if origin.startswith("issued"):
+        ctx.count("issued_token_evals")
+    if exp == "accept":
+        ctx.count("expect_accept")
+        ctx.count("multi_channel/expect_accept")
+        if shape.startswith("blank-"):
+            ctx.count("multi_channel/blank_then_valid")
+            ctx.seen("multi_blank_then_valid_shapes", (shape, parts[0][0].lower(), [c.lower() for c, x in parts
+                                                                                    if part_token(c, x) != ""][0]))
+        if not (ran and r.status == 200):
+            ctx.violation(f"rejected-matching-token/multi-channel/{shape}/{origin}/status-{r.status}",
+                          "the request carries a token that decodes to the cookie's non-empty secret (the channels in front "
+                          "of it are blank, or it is in the first channel) but the handler was not reached", wit)
+    elif exp == "reject":
+        ctx.count("expect_reject")
+        ctx.count("multi_channel/expect_reject")
+        if ran:
+            nonblank = [part_token(c, x) for c, x in parts if part_token(c, x) != ""]
+            # same classifier as for one channel: what is wrong with the token that was (or should have been) judged
+            why = _why_reject(cookie, nonblank[0]) if nonblank else "multi-channel/all-channels-blank"
+            if method not in METHODS:
+                # control experiment for the classifier only (see submit): is the same request refused with POST?
+                _rid[0] += 1
+                crid = "r%d" % _rid[0]
+                craw = webrig.build_request("POST", target, [(k, crid if k == "X-Rid" else v) for k, v in headers], body)
+                try:
+                    await s.request(craw, "POST")
+                except webrig.WireError:
+                    pass
+                s.take_uncaught()
+                if crid not in RAN:
+                    why = "not-checked-for-handler-declared-method"
+                RAN.discard(crid)
+            ctx.violation(f"handler-reached/{why}",
+                          "handler ran although no channel of the request carries a token for the cookie's secret", wit)
+        elif r.status != 403:
+            ctx.violation(f"reject-status-{r.status}/multi-channel", "rejected XSRF submission answered with a status other than 403", wit)
+    else:
+        ctx.count("unspecified_pairs")
+        ctx.count("unspecified_multi_channel")
+        ctx.count("unspecified_accepted" if ran else "unspecified_rejected")
+        if r.status not in (200, 403) or (r.status == 200) != ran:
+            ctx.violation(f"unspecified-pair/status-{r.status}-ran-{ran}", "status and handler execution inconsistent", wit)
+    ctx.mark((appver, cookie, tuple(map(tuple, parts)), method), exp != "unspec" and len(parts) > 1)
+    return r.status, ran
+
+
 def _short(v):
     """Witness form of a very long value (the case keeps the full one for replay)."""
     if v is None or len(v) <= 160:
@@ -501,6 +714,17 @@ async def run_session_case(case, ctx, sess):
         await submit(ctx, sess, v, c9, t0, *cm(), origin="other-session")
         await submit(ctx, sess, v, None, t0, *cm(), origin="no-cookie")
         await submit(ctx, sess, v, c0, "", *cm(), origin="no-token")
+    # 4b. issued tokens in a header behind a blank `_xsrf` field / an empty X-XSRFToken header
+    for tk in [t0] + issued[:2]:
+        blank = rng.choice(BLANK_ARGS)
+        await submit_multi(ctx, sess, rng.choice([1, 2]), c0, [[rng.choice(ARG_CHANNELS), blank],
+                                                               [rng.choice(["X-XSRFToken", "X-CSRFToken"]), tk]],
+                           pick_method(rng), origin="issued-multi")
+        await submit_multi(ctx, sess, rng.choice([1, 2]), c0, [["X-XSRFToken", rng.choice(BLANK_HEADERS)], ["X-CSRFToken", tk]],
+                           pick_method(rng), origin="issued-multi")
+    if c9 is not None:
+        await submit_multi(ctx, sess, v, c0, [[rng.choice(ARG_CHANNELS), rng.choice(BLANK_ARGS)], ["X-XSRFToken", t9]],
+                           pick_method(rng), origin="other-session")
     # 5. single-byte edits of a valid token / cookie (all positions when short enough, else sampled)
     base_tokens = [t0] + issued[:1] + [secret.hex()]
     n = case["edits"]
@@ -551,6 +775,8 @@ async def run_session_case(case, ctx, sess):
 async def acase(case, ctx, sess):
     if case["k"] == "session":
         await run_session_case(case, ctx, sess)
+    elif case["k"] == "multi":
+        await submit_multi(ctx, sess, case["appver"], case["cookie"], case["parts"], case["method"])
     else:
         await submit(ctx, sess, case["appver"], case["cookie"], case["token"], case["chan"], case["method"])
 
